@@ -28,8 +28,9 @@ import (
 	corev1 "k8s.io/api/core/v1"
 	"k8s.io/apimachinery/pkg/api/resource"
 	metav1 "k8s.io/apimachinery/pkg/apis/meta/v1"
-	"k8s.io/apimachinery/pkg/runtime"
-	"k8s.io/client-go/kubernetes/fake"
+	"k8s.io/client-go/kubernetes"
+	"k8s.io/client-go/rest"
+	"net/http/httptest"
 	galaxyapi "tkestack.io/galaxy/pkg/api/galaxy"
 	"tkestack.io/galaxy/pkg/api/galaxy/private"
 	"tkestack.io/galaxy/pkg/galaxy"
@@ -217,27 +218,70 @@ func cniRun(c map[string]interface{}) map[string]interface{} {
 	if err := g.Init(); err != nil {
 		return jmap{"res": "init-err", "err": err.Error()}
 	}
-	var objs []runtime.Object
+	// The API server as the daemon sees it: an HTTP stand-in with the TWO read paths of kube-apiserver - a GET with
+	// resourceVersion=0 may be answered from the watch cache, which lags (here: it still shows an earlier version of the pod -
+	// its previous incarnation or its form before the binding - when the case gives one), every other GET is a consistent read.
+	mkPod := func(m map[string]interface{}, annKey string) *corev1.Pod {
+		pod := &corev1.Pod{TypeMeta: metav1.TypeMeta{Kind: "Pod", APIVersion: "v1"},
+			ObjectMeta: metav1.ObjectMeta{Name: Str(m, "name"), Namespace: Str(m, "ns"), ResourceVersion: "7"}}
+		if an, ok := m[annKey].(map[string]interface{}); ok {
+			pod.Annotations = map[string]string{}
+			for k, v := range an {
+				s, _ := v.(string)
+				pod.Annotations[k] = s
+			}
+		}
+		ctr := corev1.Container{Name: "c"}
+		if b, _ := m["eni"].(bool); b {
+			ctr.Resources.Requests = corev1.ResourceList{"tke.cloud.tencent.com/eni-ip": resource.MustParse("1")}
+		}
+		pod.Spec.Containers = []corev1.Container{ctr}
+		return pod
+	}
+	current, cached := map[string]*corev1.Pod{}, map[string]*corev1.Pod{}
 	if l, ok := c["pods"].([]interface{}); ok {
 		for _, e := range l {
 			m, _ := e.(map[string]interface{})
-			pod := &corev1.Pod{ObjectMeta: metav1.ObjectMeta{Name: Str(m, "name"), Namespace: Str(m, "ns")}}
-			if an, ok := m["annotations"].(map[string]interface{}); ok {
-				pod.Annotations = map[string]string{}
-				for k, v := range an {
-					s, _ := v.(string)
-					pod.Annotations[k] = s
-				}
+			key := Str(m, "ns") + "/" + Str(m, "name")
+			current[key] = mkPod(m, "annotations")
+			if _, ok := m["cached_annotations"]; ok {
+				old := mkPod(m, "cached_annotations")
+				old.ResourceVersion = "3"
+				cached[key] = old
 			}
-			ctr := corev1.Container{Name: "c"}
-			if b, _ := m["eni"].(bool); b {
-				ctr.Resources.Requests = corev1.ResourceList{"tke.cloud.tencent.com/eni-ip": resource.MustParse("1")}
-			}
-			pod.Spec.Containers = []corev1.Container{ctr}
-			objs = append(objs, pod)
 		}
 	}
-	g.SetClient(fake.NewSimpleClientset(objs...))
+	var cacheReads int32
+	var cacheMu sync.Mutex
+	api := httptest.NewServer(http.HandlerFunc(func(rw http.ResponseWriter, r *http.Request) {
+		parts := strings.Split(strings.Trim(r.URL.Path, "/"), "/")
+		rw.Header().Set("Content-Type", "application/json")
+		if r.Method == "GET" && len(parts) == 6 && parts[0] == "api" && parts[2] == "namespaces" && parts[4] == "pods" {
+			key := parts[3] + "/" + parts[5]
+			pod := current[key]
+			if r.URL.Query().Get("resourceVersion") == "0" {
+				cacheMu.Lock()
+				cacheReads++
+				cacheMu.Unlock()
+				if old, ok := cached[key]; ok {
+					pod = old
+				}
+			}
+			if pod != nil {
+				_ = json.NewEncoder(rw).Encode(pod)
+				return
+			}
+		}
+		rw.WriteHeader(404)
+		_ = json.NewEncoder(rw).Encode(metav1.Status{TypeMeta: metav1.TypeMeta{Kind: "Status", APIVersion: "v1"}, Status: "Failure",
+			Reason: metav1.StatusReasonNotFound, Code: 404, Message: "not found"})
+	}))
+	defer api.Close()
+	cli, err := kubernetes.NewForConfig(&rest.Config{Host: api.URL})
+	if err != nil {
+		return jmap{"res": "harness-error", "err": err.Error()}
+	}
+	g.SetClient(cli)
 	go g.StartServer() // nolint: errcheck
 	up := false
 	for i := 0; i < 3000; i++ {
@@ -310,5 +354,7 @@ func cniRun(c map[string]interface{}) map[string]interface{} {
 		}
 		stepsOut = append(stepsOut, jmap{"results": results, "log": lines, "saved": savedState()})
 	}
-	return jmap{"res": "ok", "steps": stepsOut}
+	cacheMu.Lock()
+	defer cacheMu.Unlock()
+	return jmap{"res": "ok", "steps": stepsOut, "cache_reads": cacheReads}
 }
